@@ -57,6 +57,9 @@ structure Tx where
   subs : List Nat := []
   /-- expirations of the sub-transactions -/
   subExps : List Nat := []
+  /-- the non-expiry part of `VerifyTxBody` PANICS on this tx (e.g. the nil sub-tx dereference in
+      `checkBoxTx` before fix d73a53d); an explicit input so that `accept_total` has to name it -/
+  bodyPanics : Bool := false
   deriving DecidableEq, Repr
 
 /-- `types.Block`: header + body. The body parts outside the tx list are represented by what the
@@ -94,6 +97,8 @@ inductive Verdict where
   | ignored
   | reject (r : Reason)
   | panic
+  /-- the block passed every check but `saveNewBlock` returned an error (ErrSaveBlock / ErrSaveAccount) -/
+  | saveFailed
   deriving DecidableEq, Repr
 
 /-- what the validator can see of the node and of the outside world. -/
@@ -115,13 +120,17 @@ structure Ctx where
   hash : Header → Nat
   recover : Nat → Nat → Option Nat
   merkleRoot : List Tx → Nat
-  /-- `txGuard.ExistTxs(parentHash, txs)` -/
-  onAncestor : Nat → List Tx → Bool
+  /-- `txGuard.ExistTxs(parentHash, txs)`; `none` = it panics (`BlockCache.IsAppearedOnFork` panics when a
+      traced block or the start block is missing from the guard's cache) -/
+  onAncestor : Nat → List Tx → Option Bool
   reexec : Block → ExecRes
   /-- `false` = the code before fix 828f704, whose `verifyTxs` did not look for a hash occurring twice inside the block -/
   dupCheck : Bool := true
 
 def u32 : Nat := 4294967296
+
+/-- `params.MaxExtraDataLen` (compared with the Go constant by the op `const MaxExtraDataLen` of `hx c02`) -/
+def maxExtraDataLen : Nat := 256
 
 /-- `verifySigner` -/
 def verifySigner (c : Ctx) (b : Block) : Option Reason :=
@@ -148,11 +157,27 @@ def hasDup : List Nat → Bool
 /-- all tx hashes and box sub-tx hashes of a block body, in the order `verifyTxs` visits them -/
 def blockHashes (txs : List Tx) : List Nat := txs.flatMap (fun t => t.id :: t.subs)
 
-/-- `verifyTxs` -/
-def verifyTxs (c : Ctx) (b : Block) : Option Reason :=
-  if c.dupCheck && hasDup (blockHashes b.txs) then some .txReplay
-  else if c.onAncestor b.header.parentHash b.txs then some .txReplay
-  else if b.txs.all (txOk b.header.time) then none else some .txBody
+/-- the two window checks of `VerifyTxBody` on the tx's own expiration (they come first in the Go function) -/
+def windowBad (blockTime : Nat) (tx : Tx) : Bool :=
+  txExpiredCond (timeStamp := blockTime) (tx_Expiration := tx.exp) ||
+  txTooFarCond (timeStamp := blockTime) (tx_Expiration := tx.exp)
+
+/-- the `VerifyTxBody` loop of `verifyTxs`: the first transaction that fails decides — by an error or by a panic -/
+def txsLoop (blockTime : Nat) : List Tx → Verdict
+  | [] => .ok
+  | tx :: rest =>
+    if windowBad blockTime tx then .reject .txBody
+    else if tx.bodyPanics then .panic
+    else if txOk blockTime tx then txsLoop blockTime rest
+    else .reject .txBody
+
+/-- `verifyTxs` (`.ok` = passed) -/
+def verifyTxs (c : Ctx) (b : Block) : Verdict :=
+  if c.dupCheck && hasDup (blockHashes b.txs) then .reject .txReplay
+  else match c.onAncestor b.header.parentHash b.txs with
+    | none => .panic
+    | some true => .reject .txReplay
+    | some false => txsLoop b.header.time b.txs
 
 /-- rank of the parent's miner among the deputies of the target height -/
 def rankOfMiner (ds : List Deputy) (miner : Nat) : Option Nat :=
@@ -210,10 +235,10 @@ def verifyBefore (c : Ctx) (b : Block) : Verdict :=
       if c.merkleRoot b.txs != h.txRoot then .reject .txRoot
       else if GoSem.uadd u32 parent.height 1 != h.height then .reject .height
       else if (h.time : Int) - c.now > 1 then .reject .future
-      else if h.extra.length > 256 then .reject .extra
+      else if h.extra.length > maxExtraDataLen then .reject .extra
       else match verifyTxs c b with
-        | some r => .reject r
-        | none => verifyMiner c h parent
+        | .ok => verifyMiner c h parent
+        | v => v
 
 /-- `BlockAssembler.Seal`: the header of the locally computed block. Everything the re-execution does
     not produce is COPIED from the received header (gas limit, time, extra, deputy root off snapshot heights). -/
@@ -253,20 +278,26 @@ def ignorable (c : Ctx) (b : Block) : Bool :=
   c.stored (c.hash b.header.hashed) || decide (c.stableHeight ≥ b.header.height)
 
 /-- the engine: `durable` is everything `saveNewBlock` may touch (store, stable pointer, head, tx guard,
-    tx pool, term table); `scratch` is the base block of the shared `account.Manager`, which `RunBlock`
-    resets before the verdict is known. -/
+    tx pool, term table, the Confirmer's last signature); `scratch` is the base block of the shared
+    `account.Manager`, which `RunBlock` resets before the verdict is known. -/
 structure Engine (σ : Type) where
   durable : σ
   scratch : Option Nat
 
-/-- `DPoVP.InsertBlock` over an abstract `view` of the durable state and an abstract `save`. -/
-def insertBlock {σ : Type} (view : σ → Ctx) (save : σ → Block → σ) (e : Engine σ) (b : Block) : Engine σ × Verdict :=
+/-- `DPoVP.InsertBlock` over an abstract `view` of the durable state and an abstract `save`.
+    `save` models `TryConfirm` + `saveNewBlock`: it returns the state it leaves behind AND whether it
+    returned nil. In Go a failing `saveNewBlock` (ErrSaveAccount after `SetBlock`; ErrSaveBlock after
+    `SetBlock`, `am.Save`, `txGuard.SaveBlock`, `SetLastSig` when `UpdateStable` errors) has already written:
+    the state of the `false` outcome is whatever was written so far, NOT the old state. -/
+def insertBlock {σ : Type} (view : σ → Ctx) (save : σ → Block → σ × Bool) (e : Engine σ) (b : Block) : Engine σ × Verdict :=
   let c := view e.durable
   if ignorable c b then (e, .ignored)
   else match verifyBefore c b with
     | .ok =>
       match verifyAfter c b with
-      | .ok => ({ durable := save e.durable b, scratch := some (c.hash b.header.hashed) }, .ok)
+      | .ok =>
+        let r := save e.durable b
+        ({ durable := r.1, scratch := some (c.hash b.header.hashed) }, if r.2 then .ok else .saveFailed)
       | v => ({ e with scratch := some b.header.parentHash }, v)
     | v => (e, v)
 
@@ -278,9 +309,9 @@ def Reason.cls : Reason → String
   | _ => "other"
 
 def Verdict.show : Verdict → String
-  | .ok => "ok" | .ignored => "ignored" | .reject _ => "reject" | .panic => "panic"
+  | .ok => "ok" | .ignored => "ignored" | .reject _ => "reject" | .panic => "panic" | .saveFailed => "save-error"
 
 def Verdict.pre : Verdict → String
-  | .ok => "ok" | .ignored => "ignored" | .reject r => r.cls | .panic => "panic"
+  | .ok => "ok" | .ignored => "ignored" | .reject r => r.cls | .panic => "panic" | .saveFailed => "save-error"
 
 end LemoModel.Validator
